@@ -9,18 +9,18 @@ import (
 // pipe is one direction of the in-memory connection: an unbounded (or
 // limit-bounded) byte queue with blocking reads.
 type pipe struct {
-	mu     sync.Mutex
-	cond   *sync.Cond
-	buf    []byte
-	eof    bool  // writer side closed: readers drain then get io.EOF
-	rdErr  error // reads fail immediately with this error
-	wrErr  error // writes fail immediately with this error
-	stalled int  // writes currently blocked by the stall
-	stall  bool  // writes block until the stall is lifted (or the pipe fails)
-	limit  int   // >0: writes block while len(buf) >= limit
-	total  int64 // bytes ever written
-	pieces []int // read piece sizes (cyclic); empty = unlimited
-	nread  int   // reads served so far
+	mu      sync.Mutex
+	cond    *sync.Cond
+	buf     []byte
+	eof     bool  // writer side closed: readers drain then get io.EOF
+	rdErr   error // reads fail immediately with this error
+	wrErr   error // writes fail immediately with this error
+	stalled int   // writes currently blocked by the stall
+	stall   bool  // writes block until the stall is lifted (or the pipe fails)
+	limit   int   // >0: writes block while len(buf) >= limit
+	total   int64 // bytes ever written
+	pieces  []int // read piece sizes (cyclic); empty = unlimited
+	nread   int   // reads served so far
 }
 
 func newPipe() *pipe {
